@@ -123,91 +123,184 @@ func c10SQLEqual(a, b driver.Value) bool {
 
 type c10Pred func(row map[string]driver.Value) bool
 
-// the WHERE grammar thunder emits: disjunctions of `col IN (?, ...)`, `(a=? AND b=?)`, `a=?`, and the unbatched
-// `a = ? AND b IS ?`
+// The WHERE grammar thunder emits - disjunctions of `col IN (?, ...)`, `(a=? AND b=?)`, `a=?`, the unbatched
+// `a = ? AND b IS ?` - and what a caller may add through SelectOptions.Where: any nesting of parentheses, AND and OR over
+// those atoms, with SQL's precedence (AND binds tighter than OR). Placeholders are bound left to right.
 func c10ParseWhere(clause string, args []driver.Value) (c10Pred, error) {
-	next := 0
+	for _, kw := range []string{" ORDER BY ", " LIMIT ", " FOR UPDATE"} {
+		if i := strings.Index(clause, kw); i >= 0 {
+			clause = clause[:i]
+		}
+	}
+	var toks []string
+	for i := 0; i < len(clause); {
+		c := clause[i]
+		switch {
+		case c == ' ':
+			i++
+		case strings.ContainsRune("(),?=", rune(c)):
+			toks = append(toks, string(c))
+			i++
+		default:
+			j := i
+			for j < len(clause) && clause[j] != ' ' && !strings.ContainsRune("(),?=", rune(clause[j])) {
+				j++
+			}
+			toks = append(toks, clause[i:j])
+			i = j
+		}
+	}
+	pos, next := 0, 0
+	peek := func() string {
+		if pos < len(toks) {
+			return toks[pos]
+		}
+		return ""
+	}
+	eat := func(t string) bool {
+		if strings.EqualFold(peek(), t) {
+			pos++
+			return true
+		}
+		return false
+	}
 	take := func() (driver.Value, error) {
 		if next >= len(args) {
-			return nil, fmt.Errorf("too few arguments for %q", clause)
+			return nil, fmt.Errorf("fake driver: too few arguments for %q", clause)
 		}
 		next++
 		return args[next-1], nil
 	}
-	var disj []c10Pred
-	for _, term := range strings.Split(clause, " OR ") {
-		term = strings.TrimSpace(term)
-		if i := strings.Index(term, " IN ("); i >= 0 {
-			col := strings.TrimSpace(term[:i])
-			n := strings.Count(term[i:], "?")
+	var parseOr func() (c10Pred, error)
+	parseAtom := func() (c10Pred, error) {
+		if eat("(") {
+			p, err := parseOr()
+			if err != nil {
+				return nil, err
+			}
+			if !eat(")") {
+				return nil, fmt.Errorf("fake driver: missing ) in %q", clause)
+			}
+			return p, nil
+		}
+		col := peek()
+		if col == "" || strings.ContainsAny(col, "(),?=") {
+			return nil, fmt.Errorf("fake driver: unsupported condition at %q in %q", col, clause)
+		}
+		pos++
+		switch {
+		case eat("IN"):
+			if !eat("(") {
+				return nil, fmt.Errorf("fake driver: IN without list in %q", clause)
+			}
 			var vals []driver.Value
-			for k := 0; k < n; k++ {
+			for {
+				if !eat("?") {
+					return nil, fmt.Errorf("fake driver: unsupported IN list in %q", clause)
+				}
 				v, err := take()
 				if err != nil {
 					return nil, err
 				}
 				vals = append(vals, v)
+				if eat(",") {
+					continue
+				}
+				break
 			}
-			disj = append(disj, func(row map[string]driver.Value) bool {
+			if !eat(")") {
+				return nil, fmt.Errorf("fake driver: missing ) after IN list in %q", clause)
+			}
+			return func(row map[string]driver.Value) bool {
 				for _, v := range vals {
 					if c10SQLEqual(row[col], v) {
 						return true
 					}
 				}
 				return false
-			})
-			continue
-		}
-		term = strings.TrimSuffix(strings.TrimPrefix(term, "("), ")")
-		var conj []c10Pred
-		for _, atom := range strings.Split(term, " AND ") {
-			atom = strings.TrimSpace(atom)
-			if strings.HasSuffix(atom, " IS NULL") {
-				col := strings.TrimSuffix(atom, " IS NULL")
-				conj = append(conj, func(row map[string]driver.Value) bool { return row[col] == nil })
-				continue
+			}, nil
+		case eat("IS"):
+			if eat("NULL") {
+				return func(row map[string]driver.Value) bool { return row[col] == nil }, nil
+			}
+			if !eat("?") {
+				return nil, fmt.Errorf("fake driver: unsupported IS in %q", clause)
 			}
 			v, err := take()
 			if err != nil {
 				return nil, err
 			}
-			switch {
-			case strings.HasSuffix(atom, " IS ?"):
-				col := strings.TrimSuffix(atom, " IS ?")
-				conj = append(conj, func(row map[string]driver.Value) bool {
-					if v == nil {
-						return row[col] == nil
-					}
-					return c10SQLEqual(row[col], v)
-				})
-			case strings.HasSuffix(atom, "=?") || strings.HasSuffix(atom, "= ?"):
-				col := strings.TrimSpace(strings.TrimSuffix(strings.TrimSuffix(atom, "?"), "="))
-				col = strings.TrimSpace(strings.TrimSuffix(col, "="))
-				conj = append(conj, func(row map[string]driver.Value) bool { return c10SQLEqual(row[col], v) })
-			default:
-				return nil, fmt.Errorf("fake driver: unsupported condition %q in %q", atom, clause)
+			return func(row map[string]driver.Value) bool {
+				if v == nil {
+					return row[col] == nil
+				}
+				return c10SQLEqual(row[col], v)
+			}, nil
+		case eat("="):
+			if !eat("?") {
+				return nil, fmt.Errorf("fake driver: unsupported comparison in %q", clause)
+			}
+			v, err := take()
+			if err != nil {
+				return nil, err
+			}
+			return func(row map[string]driver.Value) bool { return c10SQLEqual(row[col], v) }, nil
+		}
+		return nil, fmt.Errorf("fake driver: unsupported condition on %q in %q", col, clause)
+	}
+	parseAnd := func() (c10Pred, error) {
+		var conj []c10Pred
+		for {
+			p, err := parseAtom()
+			if err != nil {
+				return nil, err
+			}
+			conj = append(conj, p)
+			if !eat("AND") {
+				break
 			}
 		}
-		disj = append(disj, func(row map[string]driver.Value) bool {
+		return func(row map[string]driver.Value) bool {
 			for _, p := range conj {
 				if !p(row) {
 					return false
 				}
 			}
 			return true
-		})
+		}, nil
+	}
+	parseOr = func() (c10Pred, error) {
+		var disj []c10Pred
+		for {
+			p, err := parseAnd()
+			if err != nil {
+				return nil, err
+			}
+			disj = append(disj, p)
+			if !eat("OR") {
+				break
+			}
+		}
+		return func(row map[string]driver.Value) bool {
+			for _, p := range disj {
+				if p(row) {
+					return true
+				}
+			}
+			return false
+		}, nil
+	}
+	pred, err := parseOr()
+	if err != nil {
+		return nil, err
+	}
+	if pos != len(toks) {
+		return nil, fmt.Errorf("fake driver: trailing %q in %q", strings.Join(toks[pos:], " "), clause)
 	}
 	if next != len(args) {
 		return nil, fmt.Errorf("fake driver: %d arguments for %d placeholders in %q", len(args), next, clause)
 	}
-	return func(row map[string]driver.Value) bool {
-		for _, p := range disj {
-			if p(row) {
-				return true
-			}
-		}
-		return false
-	}, nil
+	return pred, nil
 }
 
 func (s *c10Stmt) Query(args []driver.Value) (driver.Rows, error) {
